@@ -114,7 +114,7 @@ Outcome check_plan(const std::string &prop, const Plan &p)
                 ro.monitor = false; // robustness-only plans outside the modelled domain
         if ((prop == "C16" || prop == "C17") && p.mutex && !engine_asan())
                 ro.lockset = true;
-        if (prop == "C20")
+        if (prop == "C20" || prop == "C08")
                 ro.keep_going = true;
         o.res = run_plan(p, ro);
         o.runs = 1;
@@ -162,7 +162,7 @@ Outcome check_plan(const std::string &prop, const Plan &p)
                 }
         }
 
-        if (prop == "C08" && !o.res.viol.set()) {
+        if (prop == "C08") {
                 // twin differing only in the contents of write-only variables
                 RunOpts to = ro;
                 Rng rr(mix_seed(p.fill, 0xC08));
@@ -180,17 +180,22 @@ Outcome check_plan(const std::string &prop, const Plan &p)
                                 to.override_init.push_back(b);
                         }
                 if (any) {
+                        // both runs execute the whole plan even if the model objects: non-interference is judged on
+                        // the complete byte streams alone
+                        to.keep_going = true;
                         RunResult rt = run_plan(p, to);
                         o.runs++;
                         o.twin_pairs++;
                         Violation v;
-                        if (rt.viol.set())
-                                v = rt.viol;
-                        else if (rt.eng.overrun || o.res.eng.overrun || rt.desync || o.res.desync)
+                        if (rt.eng.overrun || o.res.eng.overrun || rt.desync || o.res.desync)
                                 ;
                         else if (rt.out != o.res.out)
                                 v = twin_viol("C08", "output-depends-on-write-only-contents", "two runs differing only in the contents of write-only variables produced different output", o.res.out,
                                               rt.out);
+                        else if (rt.viol.set())
+                                v = rt.viol;
+                        if (v.set() && v.prop == "C08")
+                                o.other = Violation();
                         classify(o, prop, v);
                 }
         }
